@@ -277,7 +277,7 @@ def sites : List Site := [
   ⟨(some .Analytic_SampleVariance), "Analytic.validate", 2, (some (some Ty.number)), (some none)⟩,
   ⟨(some .Analytic_Sum), "Analytic.validate", 2, (some none), (some none)⟩,
   ⟨(some .Clause_Unpivot), "Unpivot.validate", 3, none, (some none)⟩,
-  ⟨(some .Clause_Unpivot), "Unpivot.validate", 2, none, (some none)⟩,
+  ⟨(some .Clause_Unpivot), "Unpivot.validate", 0, (some none), (some none)⟩,
   ⟨(some .Conditional_If), "If.validate", 0, (some none), (some none)⟩,
   ⟨(some .Conditional_If), "If.validate", 0, (some none), (some none)⟩,
   ⟨(some .Conditional_If), "If.validate", 0, (some none), (some none)⟩,
@@ -310,7 +310,8 @@ def sites : List Site := [
   ⟨(some .String_Instr), "Instr.check_param", 3, (some (some Ty.integer)), (some none)⟩,
   ⟨(some .String_Instr), "Instr.check_param", 3, (some (some Ty.integer)), (some none)⟩,
   ⟨(some .Time_Date_Add), "Date_Add.validate", 2, (some (some Ty.date)), (some none)⟩,
-  ⟨(some .Validation_Check_Hierarchy), "Check_Hierarchy.validate_hr_dataset", 3, (some (some Ty.number)), (some none)⟩]
+  ⟨(some .Validation_Check_Hierarchy), "Check_Hierarchy.validate_hr_dataset", 3, (some (some Ty.number)), (some none)⟩,
+  ⟨none, "StructureVisitor._build_unpivot_structure", 0, (some none), (some none)⟩]
 
 def monomeasureChangedAllowed : List String := ["ceil", "floor", "round"]
 
